@@ -401,9 +401,21 @@ def _eq_pairs(c):
     return []
 
 
+def as_cond(c):
+    """A term in condition position: a bare length is the test len(x) != 0 (through and / or / not)."""
+    if _is_len(c):
+        return cmp('!=', c, C(0))
+    if c[0] in ('and', 'or') and any(_is_len(x) or x[0] in ('and', 'or', 'not') for x in c[1]):
+        return nary(c[0], tuple(as_cond(x) for x in c[1]))
+    if c[0] == 'not' and (_is_len(c[1]) or c[1][0] in ('and', 'or')):
+        return not_(as_cond(c[1]))
+    return c
+
+
 def ite(c, a, b):
     if a == b:
         return a
+    c = as_cond(c)
     if c[0] == 'c':
         return a if c[1] else b
     if c[0] == 'not':
